@@ -23,7 +23,7 @@ const (
 // uninterpreted function of its arguments (assumed contracts, DESIGN.md 3.6).
 var purePackages = []string{
 	"strings", "unicode", "unicode/utf8", "path/filepath", "path", "go/types", "go/token", "go/ast",
-	"strconv", "math", "slices", "cmp", "errors", "context", "github.com/huandu/xstrings",
+	"strconv", "math", "slices", "maps", "iter", "cmp", "errors", "context", "github.com/huandu/xstrings",
 	"github.com/Masterminds/semver/v3", "golang.org/x/mod/modfile", "golang.org/x/mod/module",
 }
 
